@@ -152,6 +152,10 @@ impl ZoneIndex {
             }
         }
 
+        // tokio files report a failed write on the next operation: flush first
+        file.flush()
+            .await
+            .map_err(|e| StoreError::FlushFailed(e.to_string()))?;
         file.sync_all().await.map_err(|e| {
             error!(target: "sneldb::index", error = %e, "Failed to sync file");
             StoreError::FlushFailed(e.to_string())
